@@ -11,14 +11,16 @@
    (3) PIPELINE: perform_reductions, for every option vector with the two lossy switches off and every
        clock: the baseline and every candidate handed to the evaluator mean what the input means
        (C01_reductions_lossless_partial) -- given the record `leaves`, which names exactly the
-       transformations whose image-level theorem is NOT yet proved in Coq (interlacing change,
-       coverage of the mzeng/battiato reindexing); those, the
-       compression/filter stage at image level and the container are decided on every run by the
+       transformations whose image-level theorem is NOT yet proved in Coq (the de-interlacing
+       state machine; coverage of the mzeng/battiato reindexing); those, the
+       parsing of the INPUT file into the image (`from_slice`) is decided on every run by the
        correspondence check and the specification oracle (see evidence). *)
 From OxiVerif Require Import Base.Common Spec.Filter Spec.Adam7 Spec.Sem Model.Types Model.Options Model.BitDepth
   Model.ScanLines Model.Filters Model.Color Model.Palette Model.Reductions Model.Evaluate Model.Optimize
   Proofs.Bridge Proofs.PixelProofs Proofs.FilterProofs Proofs.ImageLift Proofs.LiftReductions Proofs.LiftColor
-  Proofs.LiftPalette Proofs.LiftLines Proofs.LiftBits Proofs.PipelineLossless.
+  Proofs.LiftPalette Proofs.LiftLines Proofs.LiftBits Proofs.LiftInterlace Proofs.PipelineLossless Proofs.FilterStream Proofs.EmittedStream.
+From OxiVerif Require Import Model.Interlace.
+From OxiVerif Require Import Spec.Decode Spec.DecodeFile Model.Headers Model.PngData Proofs.OutputProofs Proofs.OutputDecode Proofs.FileLevel.
 
 (* 16 -> 8 bit reduction: every pixel (samples whose two bytes are equal) keeps its exact RGBA
    value, colour key included (this is the statement that was false before fix 13ac031) *)
@@ -120,6 +122,12 @@ Theorem C01_image_reduce_8_or_less : forall img img' pic, wf img ->
 Proof. exact reduced_bit_depth_8_or_less_sem. Qed.
 Print Assumptions C01_image_reduce_8_or_less.
 
+(* interlacing a non-interlaced image (pixel routing, pass rows packed and padded per row) *)
+Theorem C01_image_interlace : forall img img' pic, wf img -> interlaced (hdr img) = false ->
+  interlace_image img = Ok img' -> sem img = Some pic -> sem img' = Some pic /\ wf img'.
+Proof. exact interlace_image_sem. Qed.
+Print Assumptions C01_image_interlace.
+
 (* any reordering of the palette that still lists every index the image uses *)
 Theorem C01_image_palette_reorder : forall img remapping img' pic,
   depth (hdr img) = 8 -> wf img -> (length remapping <= 256)%nat ->
@@ -154,6 +162,33 @@ Theorem C01_emitted_lossless_partial : forall (L : leaves) e o img max_size c pi
   optimize_raw e o img max_size = Ok (Some c) -> means pic (c_image c).
 Proof. exact optimize_raw_lossless_partial. Qed.
 Print Assumptions C01_emitted_lossless_partial.
+
+(* ... down to the IDAT content: what is written is the compressor's answer for a filtered stream which the SPECIFICATION's decoder
+   (reconstruction of the filtered rows pass by pass, then the meaning of the image data) maps to the picture the input means -
+   for all ten filter strategies, any Brute choice oracle, any compressor, schedule and clock *)
+Theorem C01_emitted_stream_partial : forall (L : leaves) e o img max_size c pic,
+  optimize_alpha o = false -> scale_16 o = false -> means pic img ->
+  optimize_raw e o img max_size = Ok (Some c) ->
+  exists d stream, c_cdata c = z_deflate e d stream /\
+    spec_decode_stream (width (hdr (c_image c))) (height (hdr (c_image c))) (spec_color_of (ctype (hdr (c_image c))))
+                       (depth (hdr (c_image c))) (interlaced (hdr (c_image c))) stream = Some pic.
+Proof. exact emitted_stream_lossless_partial. Qed.
+Print Assumptions C01_emitted_stream_partial.
+
+(* ... and to the BYTES WRITTEN: the file that `output` writes for the chosen candidate is decoded by the specification's
+   whole-file decoder (strict container parse with CRCs, IHDR, PLTE/tRNS, inflate, un-filtering, Adam7, colour) to the picture the
+   input image means. Named side conditions: the decompressor undoes the compressor; chunk payloads < 2^31 bytes; no ancillary
+   chunk is named IEND/PLTE/tRNS/IDAT; header fields fit their encodings. *)
+Theorem C01_file_decodes_partial : forall (L : leaves) e o img max_size c pic (inflate : list Z -> option (list Z)) (p' : pngdata),
+  optimize_alpha o = false -> scale_16 o = false -> means pic img ->
+  optimize_raw e o img max_size = Ok (Some c) ->
+  (forall d s, inflate (z_deflate e d s) = Some s) ->
+  raw p' = c_image c -> idat_data p' = c_cdata c ->
+  Forall chunk_wf (output_body p') -> Forall not_iend (output_body p') ->
+  writable (hdr (raw p')) -> 0 <= depth (hdr (raw p')) < 256 -> Forall not_key (aux_written p') ->
+  spec_decode_png inflate (output p') = Some pic.
+Proof. exact emitted_file_decodes_partial. Qed.
+Print Assumptions C01_file_decodes_partial.
 
 (* non-vacuity: the witness of finding F1 (4x2 gray16, pixels 3434 1212 0000 ffff, key 0x1234):
    after the fix the key is dropped because it can match no pixel *)
